@@ -76,7 +76,7 @@ func mutableContainer(t types.Type) string {
 
 func runC08R3(c *Ctx, r *Rep) {
 	// (i) NewModule copies
-	nm := c.MethodDecl("py", "ModuleStore", "NewModule")
+	nm := c.MethodDeclX("py", "ModuleStore", "NewModule")
 	if nm == nil {
 		r.undecided("py|(*ModuleStore).NewModule", token.NoPos, "anchor not found")
 		return
@@ -108,15 +108,23 @@ func runC08R3(c *Ctx, r *Rep) {
 	// a loop over the globals that copies container values
 	ast.Inspect(nm.Body, func(n ast.Node) bool {
 		rs, ok := n.(*ast.RangeStmt)
-		if !ok || !strings.Contains(exprStr(rs.X), "Globals") {
+		if !ok || !strings.Contains(strings.ToLower(exprStr(rs.X)), "globals") {
 			return true
 		}
+		// unconditional: reached from the body through plain blocks only (an extracted helper shows up as one)
 		topLevel := false
-		for _, st := range nm.Body.List {
-			if st == ast.Stmt(rs) {
-				topLevel = true
+		var plain func(list []ast.Stmt)
+		plain = func(list []ast.Stmt) {
+			for _, st := range list {
+				if st == ast.Stmt(rs) {
+					topLevel = true
+				}
+				if b, ok := st.(*ast.BlockStmt); ok {
+					plain(b.List)
+				}
 			}
 		}
+		plain(nm.Body.List)
 		if !topLevel {
 			conditionalCopy = rs.Pos()
 			return true
